@@ -114,6 +114,13 @@ Definition set_sets (d : dobj) (cs ccs nds cnds : option bset) : dobj :=
          (o_nch d) (o_mch d) (o_ich d) (o_xch d) cs ccs nds cnds (o_tm d) (o_lm d)
          (o_cache_depth d) (o_cache_type d) (o_group_depth d) (o_group_kind d) (o_group_subkind d)
          (o_pci_class d) (o_os_types d).
+Definition set_gp (d : dobj) (g : option N) : dobj :=
+  mkDobj (o_id d) (o_type d) (o_depth d) (o_os d) g (o_parent d) (o_first d) (o_last d)
+         (o_prev_sib d) (o_next_sib d) (o_prev_cousin d) (o_next_cousin d)
+         (o_arity d) (o_marity d) (o_iarity d) (o_xarity d) (o_rank d) (o_lidx d) (o_carray d)
+         (o_nch d) (o_mch d) (o_ich d) (o_xch d) (o_cs d) (o_ccs d) (o_nds d) (o_cnds d) (o_tm d) (o_lm d)
+         (o_cache_depth d) (o_cache_type d) (o_group_depth d) (o_group_kind d) (o_group_subkind d)
+         (o_pci_class d) (o_os_types d).
 Definition set_tm (d : dobj) (tm : N) : dobj :=
   mkDobj (o_id d) (o_type d) (o_depth d) (o_os d) (o_gp d) (o_parent d) (o_first d) (o_last d)
          (o_prev_sib d) (o_next_sib d) (o_prev_cousin d) (o_next_cousin d)
@@ -334,10 +341,18 @@ Definition step_group (t : topo) (g : gspec) : topo * result :=
                 | None => (set_root t1 r', RObj into false)
                 end
             | OReplaced =>
-                (* the linked object now carries the payload (gp_index, userdata) of the new Group; it is returned *)
+                (* hwloc_replace_linked_object since 6dba2e5: the linked object keeps its gp_index but now carries
+                   everything else of the new Group (kind, subkind, dont_merge, userdata, subtype, infos); it is
+                   returned.  Insert.replace_payload gives the node the whole payload of the new Group (gp_index
+                   m_next_gp t): the old gp_index, the one that is in the tree before and not after, is put back here *)
                 let ng := m_next_gp t in
-                let t2 := set_root t1 (finish_group r' ng) in
-                (set_extra t2 (put_extra (m_extra t2) ng (gextra g)), RObj (Some ng) false)
+                match find (fun g0 => negb (existsb (N.eqb g0) (gps r'))) (gps (m_root t)) with
+                | Some ig =>
+                    let r2 := map_gp ng (fun o => match o with Obj d n m i x => Obj (set_gp d (Some ig)) n m i x end) r' in
+                    let t2 := set_root t1 (finish_group r2 ig) in
+                    (set_extra t2 (put_extra (m_extra t2) ig (gextra g)), RObj (Some ig) false)
+                | None => (set_root t1 r', RObj None false)
+                end
             end
         | _ => (* just merge root *) (t1, RObj (o_gp rd) false)
         end
